@@ -5,7 +5,7 @@
    wake  <wr> <window> <max_frame> <remaining> <wu>  -> <wait_wr|wait_win|send:n> wu=<b>
    events:  REQ i hex | RESP i hex | DATA i hex fcl | TRL i hex | END i | RST i remote code | WU i
             SET iw mcs | SACK | PRIO | PING | PACK | UNK | GOAWAY code | PERR | LOST | CLOSE | PAUSE | RESUME
-            REG i | REL i | ATT i | DL i | CANCEL i | READ i
+            REG i | REL i | ATT i | DL i | CANCEL i | READ i | WAIT i
    call:    sid/req/headers/queue/eof/trailers/wu/hr/tr/wrapper/error/in_tasks/cancels
    Nothing here computes anything about the model: parsing and printing only. *)
 let zi w = z_of_int (int_of_string w)
@@ -39,6 +39,7 @@ let rec parse_events acc cur = function
   | "DL" :: i :: r -> parse_events acc (ADeadline (zi i) :: cur) r
   | "CANCEL" :: i :: r -> parse_events acc (ACancel (zi i) :: cur) r
   | "READ" :: i :: r -> parse_events acc (ARead (zi i) :: cur) r
+  | "WAIT" :: i :: r -> parse_events acc (AWaitWindow (zi i) :: cur) r
   | w :: _ -> failwith ("unknown event word " ^ w)
 
 let side_of = function "C" -> Client | "S" -> Server | w -> failwith ("side " ^ w)
